@@ -44,6 +44,7 @@ import (
 
 	"github.com/codelaboratoryltd/bng/pkg/radius"
 	"go.uber.org/zap"
+	"go.uber.org/zap/zapcore"
 
 	"verif/report"
 )
@@ -186,8 +187,9 @@ type env struct {
 	ctx    context.Context
 	cancel context.CancelFunc
 
-	mu  sync.Mutex
-	log []event
+	mu     sync.Mutex
+	log    []event
+	srvLog []string // non-Info messages logged by the listener (self-test only)
 
 	fenceN   uint64
 	stopped  atomic.Bool
@@ -215,9 +217,34 @@ func (a audit) LogDisconnectRequest(req *radius.DisconnectRequest, resp *radius.
 
 const liveSession = "sess-1"
 
+// logCore is a zap core that keeps the messages the listener logs (no encoding,
+// no output). Only the self-test reads it: when a lone valid request gets no
+// reply at all, the listener's own statement that it rejected the datagram
+// ("Invalid authenticator", ...) is positive evidence of a violation, where the
+// mere absence of a reply within the watchdog would only be a harness error.
+type logCore struct{ e *env }
+
+func (c logCore) Enabled(zapcore.Level) bool        { return true }
+func (c logCore) With([]zapcore.Field) zapcore.Core { return c }
+func (c logCore) Sync() error                       { return nil }
+func (c logCore) Check(ent zapcore.Entry, ce *zapcore.CheckedEntry) *zapcore.CheckedEntry {
+	if ent.Level >= zapcore.DebugLevel && ent.Level != zapcore.InfoLevel {
+		return ce.AddCore(ent, c)
+	}
+	return ce
+}
+func (c logCore) Write(ent zapcore.Entry, _ []zapcore.Field) error {
+	c.e.mu.Lock()
+	if len(c.e.srvLog) < 64 {
+		c.e.srvLog = append(c.e.srvLog, ent.Message)
+	}
+	c.e.mu.Unlock()
+	return nil
+}
+
 func newEnv(secret []byte) (*env, error) {
 	e := &env{secret: secret, rbuf: make([]byte, 8192), watchdog: watchdog}
-	srv, err := radius.NewCoAServer(radius.CoAServerConfig{Address: "127.0.0.1:0", Secret: string(secret)}, zap.NewNop())
+	srv, err := radius.NewCoAServer(radius.CoAServerConfig{Address: "127.0.0.1:0", Secret: string(secret)}, zap.New(logCore{e}))
 	if err != nil {
 		return nil, err
 	}
@@ -1020,7 +1047,18 @@ func selfTest(run *report.Run, e *env) error {
 				Trace:  []string{"valid Disconnect-Request (fence) alone"}, Extra: map[string]any{"secret_hex": hex.EncodeToString(e.secret), "selftest": true}})
 			return fmt.Errorf("self-test failed: fence reply does not verify (reported as violation)")
 		}
-		return fmt.Errorf("self-test: no reply to a valid request on loopback")
+		e.mu.Lock()
+		logged := append([]string{}, e.srvLog...)
+		e.mu.Unlock()
+		for _, m := range logged {
+			if strings.Contains(m, "Invalid authenticator") || strings.Contains(m, "Failed to parse attributes") || strings.Contains(m, "Unknown RADIUS code") {
+				run.Violation(report.Violation{Part: "coa-listener/selftest", Kind: "authentic-rejected", Site: "CoAServer.receiveLoop",
+					Detail: fmt.Sprintf("a lone valid Disconnect-Request (secret of %d bytes, %q...) was rejected: the listener logged %q and sent nothing", len(e.secret), firstBytes(e.secret, 4), m),
+					Trace:  []string{"valid Disconnect-Request (fence) alone"}, Extra: map[string]any{"secret_hex": hex.EncodeToString(e.secret), "selftest": true}})
+				return fmt.Errorf("self-test failed: valid request rejected by the listener (reported as violation)")
+			}
+		}
+		return fmt.Errorf("self-test: no reply to a valid request on loopback and no rejection logged by the listener")
 	}
 	if err != nil {
 		return err
@@ -1029,6 +1067,13 @@ func selfTest(run *report.Run, e *env) error {
 		return fmt.Errorf("self-test: unexpected activity %+v", obs)
 	}
 	return nil
+}
+
+func firstBytes(b []byte, n int) string {
+	if len(b) > n {
+		b = b[:n]
+	}
+	return string(b)
 }
 
 func hexShort(b []byte) string {
@@ -1061,12 +1106,24 @@ func replay(run *report.Run) int {
 	var obs observation
 	if st, _ := v.Extra["selftest"].(bool); st {
 		d = nil
+		e.watchdog = 8 * time.Second
 	}
 	obs, err = e.run1(d)
 	if err != nil {
 		if err == errWatchdog && len(obs.Responses) > 0 {
 			fmt.Printf("VIOLATION property=C15 replay=%s\n  kind=bad-response detail=reply to a valid request does not verify: %s\n", *report.FlagReplay, hex.EncodeToString(obs.Responses[0]))
 			return 1
+		}
+		if err == errWatchdog {
+			e.mu.Lock()
+			logged := append([]string{}, e.srvLog...)
+			e.mu.Unlock()
+			for _, m := range logged {
+				if strings.Contains(m, "Invalid authenticator") || strings.Contains(m, "Failed to parse attributes") || strings.Contains(m, "Unknown RADIUS code") {
+					fmt.Printf("VIOLATION property=C15 replay=%s\n  kind=authentic-rejected detail=valid request rejected, listener logged %q\n", *report.FlagReplay, m)
+					return 1
+				}
+			}
 		}
 		fmt.Println("HARNESS-ERROR", err)
 		return 2
